@@ -7,6 +7,7 @@ replace github.com/mithrandie/csvq => /repo
 require github.com/mithrandie/csvq v0.0.0-00010101000000-000000000000
 
 require (
+	github.com/anishathalye/porcupine v1.3.0
 	github.com/mitchellh/go-homedir v1.1.0 // indirect
 	github.com/mithrandie/go-file/v2 v2.1.0 // indirect
 	github.com/mithrandie/go-text v1.6.0 // indirect
